@@ -28,6 +28,8 @@
 (***************************************************************************)
 EXTENDS Naturals, Sequences, FiniteSets, TLC
 
+SX == INSTANCE SequencesExt   \* FoldLeft: iterative (Java module override), keeps TLC's stack flat
+
 CONSTANTS
   Root,        \* id of the root site
   SubSites,    \* ids of Site objects that can be nested
@@ -208,8 +210,7 @@ Ok == [kind |-> "ok"]
 (* Presentation: expected outcomes are handed to the driver with ordinary    *)
 (* strings (TLC concatenates strings with \o), which keeps simulation files  *)
 (* and evaluator output small.                                               *)
-RECURSIVE Flat(_)
-Flat(s) == IF s = <<>> THEN "" ELSE s[1] \o Flat(Tail(s))
+Flat(s) == SX!FoldLeft(LAMBDA acc, c : acc \o c, "", s)
 FlatEach(q) == [i \in 1..Len(q) |-> Flat(q[i])]
 ShowLinks(L) == {[href |-> Flat(l.href),
                   pairs |-> [i \in 1..Len(l.pairs) |-> <<Flat(l.pairs[i][1]), Flat(l.pairs[i][2])>>]] : l \in L}
